@@ -537,3 +537,202 @@ Proof.
       * intros E. apply beq_true in E. fold sec_change in E. subst id. congruence.
       * intros _ E. apply beq_true in E. fold sec_file in E. subst id. congruence.
 Qed.
+
+(* ------------------------------------------------------------------------------------------------ *)
+(* One iteration of iter_sections                                                                    *)
+
+Definition LInv (st : rstate) : Prop := (0 <= st_linenum st <= Z.of_nat (pos st))%Z.
+
+(* what the DOM loader needs to know of a record, given the nesting depth before it *)
+Definition step_depth (d : nat) (r : record) : option nat :=
+  let id := r_id r in
+  if beq id sec_main then Some 0
+  else if beq id sec_change then Some 1
+  else if beq id sec_file then (if 1 <=? d then Some 2 else None)
+  else match r_payload r with PNone => None | _ => Some d end.
+
+Definition step_post (st : rstate) (prev : nat) (r : step_result) : Prop :=
+  match r with
+  | SDone => True
+  | SParse l c => (0 <= l <= Z.of_nat (List.length (sdata st)))%Z
+  | SExc e => e = EUnmodelled \/ e = EOracleMiss
+  | SYield r st' valid' encs' prev' =>
+      Inv valid' encs' prev' /\ sdata st' = sdata st /\ wf_rstate st' /\ pos st < pos st' /\ LInv st' /\
+      step_depth prev r = Some prev'
+  end.
+
+Lemma pop_n_len : forall {A} n (l : list A), n <= List.length l ->
+  exists l', pop_n n l = Some l' /\ List.length l' = List.length l - n.
+Proof.
+  induction n as [|n IH]; intros l H; cbn [pop_n].
+  - exists l. split; [reflexivity|lia].
+  - destruct l as [|x t]; cbn [List.length] in *; [lia|]. apply IH. lia.
+Qed.
+
+Lemma iter_step_spec : forall orc chunk st valid encs prev,
+  0 < chunk -> wf_rstate st -> LInv st -> Inv valid encs prev ->
+  step_post st prev (iter_step orc chunk st valid encs prev).
+Proof.
+  intros orc chunk st valid encs prev Hc Hwf HL HI. unfold iter_step.
+  pose proof (read_header_spec chunk valid st Hc) as Hh.
+  destruct (read_header chunk valid st) as [|level name id opts line st1|l c|e]; cbn [header_post] in Hh.
+  - exact I.
+  - destruct Hh as (-> & Hln & Hdat & Hwf1 & Hpos & Hid & Hname & Hin).
+    specialize (Hwf1 Hwf).
+    assert (Hb0 : (0 <= st_linenum st <= Z.of_nat (List.length (sdata st)))%Z).
+    { unfold LInv, pos, sdata, wf_rstate, wf_stream in *. lia. }
+    assert (Hb1 : (0 <= st_linenum st1 <= Z.of_nat (List.length (sdata st)))%Z).
+    { unfold LInv, pos, sdata, wf_rstate, wf_stream in *. rewrite Hdat in Hwf1. lia. }
+    assert (Hb2 : (0 <= st_linenum st1 - 1 <= Z.of_nat (List.length (sdata st)))%Z) by lia.
+    destruct (id_facts valid encs prev level name id HI Hname Hid Hin) as (nxt & Ht & [C|[M|N]]).
+    + (* content section *)
+      destruct C as (C1 & C2 & C3 & C4 & C5 & C6 & C7).
+      cbv zeta. rewrite Ht, C1.
+      destruct encs as [|inh encs']; [cbn [List.length] in C7; lia|]. cbn [top].
+      assert (forall p st2, content_post st1 (COk p st2) ->
+                step_post st prev (SYield {| r_level := level; r_line := st_linenum st; r_opts := opts; r_id := id;
+                                             r_type := name; r_payload := p |} st2 nxt (inh :: encs') prev)) as Hyield.
+      { intros p st2 (P1 & P2 & P3 & P4 & P5 & P6). cbn [step_post].
+        split; [eapply Inv_run; eauto|]. split; [congruence|]. split; [auto|].
+        split; [lia|]. split; [unfold LInv, pos in *; lia|].
+        unfold step_depth. cbn [r_id r_payload]. rewrite C3, C4, C5. destruct p; congruence. }
+      assert (forall l, content_post st1 (CParse l) -> step_post st prev (SParse l None)) as Hparse.
+      { intros l [-> | ->]; cbn [step_post]; assumption. }
+      destruct (opt_get "length" opts) as [[len|?]|]; try exact Hb0.
+      destruct (len <? 0)%Z; [exact Hb0|].
+      destruct (is_preamble id).
+      { match goal with |- context [read_content ?a1 ?a2 ?a3 ?a4 ?a5 ?a6] =>
+          pose proof (read_content_spec a1 a2 a3 a4 a5 a6) as Hrc; destruct (read_content a1 a2 a3 a4 a5 a6) as [p st2|l|ex] end.
+        - apply Hyield; exact Hrc.
+        - apply Hparse; exact Hrc.
+        - left; exact Hrc. }
+      destruct (is_meta id).
+      { destruct (negb _); [exact Hb0|].
+        match goal with |- context [read_content ?a1 ?a2 ?a3 ?a4 ?a5 ?a6] =>
+          pose proof (read_content_spec a1 a2 a3 a4 a5 a6) as Hrc; destruct (read_content a1 a2 a3 a4 a5 a6) as [p st2|l|ex] end.
+        - destruct (assoc_get beq _ orc) as [[j| |]|]; try exact Hb0; [|right; reflexivity].
+          apply Hyield. destruct Hrc as (P1 & P). split; [discriminate|exact P].
+        - apply Hparse; exact Hrc.
+        - left; exact Hrc. }
+      cbn [orb] in C2. fold sec_file_diff. rewrite C2.
+      match goal with |- context [read_content ?a1 ?a2 ?a3 ?a4 ?a5 ?a6] =>
+        pose proof (read_content_spec a1 a2 a3 a4 a5 a6) as Hrc; destruct (read_content a1 a2 a3 a4 a5 a6) as [p st2|l|ex] end.
+      * apply Hyield; exact Hrc.
+      * apply Hparse; exact Hrc.
+      * left; exact Hrc.
+    + (* the main section *)
+      destruct M as (M1 & M2 & M3 & M4 & M5 & M6).
+      cbv zeta. rewrite Ht, M1. fold sec_main. rewrite M2.
+      destruct (match opt_get "version" opts with Some (VStr v) => in_ids v GenText.versions | _ => false end);
+        [|exact Hb0].
+      destruct encs as [|e0 [|? ?]]; cbn [List.length] in M5; try lia. cbn [top step_post].
+      split; [eapply Inv_run; [exact Ht|lia|cbn [List.length]; lia]|].
+      split; [exact Hdat|]. split; [exact Hwf1|]. split; [exact Hpos|].
+      split; [unfold LInv, pos in *; lia|].
+      unfold step_depth. cbn [r_id]. rewrite M2. congruence.
+    + (* .change / ..file *)
+      destruct N as (N1 & N2 & N3 & N4 & N5 & N6 & N7 & N8).
+      cbv zeta. rewrite Ht, N1. fold sec_main sec_change sec_file. rewrite N2, N3.
+      destruct (pop_n_len (prev + 1 - level) encs) as (encs1 & Hp & Hl1); [lia|]. rewrite Hp.
+      destruct encs1 as [|cur encs1']; [cbn [List.length] in Hl1; lia|]. cbn [top step_post].
+      split; [eapply Inv_run; [exact Ht|exact N6|cbn [List.length] in *; lia]|].
+      split; [exact Hdat|]. split; [exact Hwf1|]. split; [exact Hpos|].
+      split; [unfold LInv, pos in *; lia|].
+      unfold step_depth. cbn [r_id]. rewrite N2.
+      destruct (beq id sec_change) eqn:Ech.
+      * rewrite (N7 eq_refl). reflexivity.
+      * cbn [orb] in N3. rewrite N3. specialize (N8 eq_refl N3). rewrite N8 in N4 |- *.
+        destruct (1 <=? prev) eqn:Q; [reflexivity|]. apply Nat.leb_gt in Q. lia.
+  - cbn [step_post]. subst l. unfold LInv, pos, sdata, wf_rstate, wf_stream in *. lia.
+  - contradiction.
+Qed.
+
+(* ------------------------------------------------------------------------------------------------ *)
+(* The loop                                                                                          *)
+
+Fixpoint chain (d : nat) (rs : list record) : option nat :=
+  match rs with
+  | [] => Some d
+  | r :: t => match step_depth d r with Some d' => chain d' t | None => None end
+  end.
+
+Lemma chain_snoc : forall rs d r d1, chain d rs = Some d1 -> chain d (rs ++ [r]) = step_depth d1 r.
+Proof.
+  induction rs as [|x t IH]; intros d r d1 H; cbn [chain app] in *.
+  - inversion H; subst. destruct (step_depth d1 r); reflexivity.
+  - destruct (step_depth d x); [eauto|discriminate].
+Qed.
+
+Lemma frev_cons : forall {A} (x : A) l, frev (x :: l) = frev l ++ [x].
+Proof. intros. unfold frev. cbn [rev_append]. rewrite (rev_append_rev l [x]), (rev_append_rev l []), app_nil_r. reflexivity. Qed.
+
+Definition term_post (data : bytes) (t : term) : Prop :=
+  match t with
+  | TEnd => True
+  | TParse l c => (0 <= l <= Z.of_nat (List.length data))%Z
+  | TExc e => e = EUnmodelled \/ e = EOracleMiss
+  | TFuel => False
+  end.
+
+Lemma iter_loop_spec : forall fuel orc chunk st valid encs prev acc d0,
+  0 < chunk -> wf_rstate st -> LInv st -> Inv valid encs prev ->
+  List.length (sdata st) - pos st < fuel ->
+  chain d0 (frev acc) = Some prev ->
+  term_post (sdata st) (snd (iter_loop fuel orc chunk st valid encs prev acc)) /\
+  exists d, chain d0 (fst (iter_loop fuel orc chunk st valid encs prev acc)) = Some d.
+Proof.
+  induction fuel as [|f IH]; intros orc chunk st valid encs prev acc d0 Hc Hwf HL HI Hf Hch; [lia|].
+  cbn [iter_loop]. pose proof (iter_step_spec orc chunk st valid encs prev Hc Hwf HL HI) as S.
+  destruct (iter_step orc chunk st valid encs prev) as [|r st' valid' encs' prev'|l c|e];
+    cbn [step_post] in S; cbn [fst snd term_post].
+  - split; [exact I|eauto].
+  - destruct S as (I' & D & W & P & L & SD). rewrite <- D. apply IH; auto.
+    + unfold wf_rstate, wf_stream, pos, sdata in *. rewrite D in *. lia.
+    + rewrite frev_cons. rewrite (chain_snoc _ _ r _ Hch). exact SD.
+  - split; [exact S|eauto].
+  - split; [exact S|eauto].
+Qed.
+
+Theorem read_all_spec : forall orc chunk data, 0 < chunk ->
+  term_post data (snd (read_all orc chunk data)) /\ exists d, chain 0 (fst (read_all orc chunk data)) = Some d.
+Proof.
+  intros orc chunk data Hc. unfold read_all.
+  set (st0 := {| st_stream := {| s_data := data; s_pos := 0 |}; st_linenum := 0%Z; st_fnl := None |}).
+  change data with (sdata st0) at 2.
+  apply iter_loop_spec; auto.
+  - apply wf_initial.
+  - unfold LInv, pos; cbn. lia.
+  - constructor.
+  - unfold sdata, pos; cbn. lia.
+Qed.
+
+(* C08, streaming half *)
+Theorem C08_total_proof : forall orc chunk data, 0 < chunk -> snd (read_all orc chunk data) <> TFuel.
+Proof.
+  intros orc chunk data Hc E. destruct (read_all_spec orc chunk data Hc) as [T _]. rewrite E in T. exact T.
+Qed.
+
+Theorem C08_no_other_exception_proof : forall orc chunk data e, 0 < chunk ->
+  snd (read_all orc chunk data) = TExc e -> e = EUnmodelled \/ e = EOracleMiss.
+Proof.
+  intros orc chunk data e Hc E. destruct (read_all_spec orc chunk data Hc) as [T _]. rewrite E in T. exact T.
+Qed.
+
+Theorem C08_linenum_proof : forall orc chunk data l c, 0 < chunk ->
+  snd (read_all orc chunk data) = TParse l c -> (0 <= l)%Z /\ (l <= Z.of_nat (List.length data))%Z.
+Proof.
+  intros orc chunk data l c Hc E. destruct (read_all_spec orc chunk data Hc) as [T _]. rewrite E in T. exact T.
+Qed.
+
+Theorem C08_contract_proof : forall orc chunk data, 0 < chunk ->
+  let t := snd (read_all orc chunk data) in
+  t = TEnd \/ (exists l c, t = TParse l c /\ (0 <= l <= Z.of_nat (List.length data))%Z) \/
+  t = TExc EUnmodelled \/ t = TExc EOracleMiss.
+Proof.
+  intros orc chunk data Hc t. destruct (read_all_spec orc chunk data Hc) as [T _]. fold t in T.
+  destruct t as [|l c|e|]; cbn [term_post] in T.
+  - left; reflexivity.
+  - right; left; eauto.
+  - right; right. destruct T; subst; auto.
+  - contradiction.
+Qed.
